@@ -334,3 +334,28 @@ Definition ly_from_str (v : variant) (s : str) : res lcopyright :=
   | Err _ => Err 1%N
   | Panic n => Panic n | OutOfFuel => OutOfFuel
   end.
+
+(* ---------------------------------------------------------------- paths that are not valid UTF-8 *)
+(* Both matches() functions evaluate  glob_to_regex(f).is_match(filename.to_str().unwrap())  per
+   pattern.  Path::to_str() is None when the path is not valid UTF-8 (possible on Unix), so the
+   unwrap panics (Panic 13) as soon as there is a first pattern to try (after glob_to_regex of
+   that pattern, which may panic first).  Such a path is not a [str]; the functions above are
+   about paths that are.  The finding is recorded as class non-utf8-path (known_findings.jsonl);
+   the definitions below are what the `glob`/`copyright` streams compare on paths written
+   "!<hex bytes>" in a case file. *)
+Definition any_match_nonutf8 (fs : list str) : res bool :=
+  match fs with
+  | [] => Ok false
+  | f :: _ => bind (glob_to_regex f) (fun _ => Panic 13)
+  end.
+Definition ll_matches_nonutf8 (p : para) : res bool := bind (ll_files p) any_match_nonutf8.
+Definition ly_matches_nonutf8 (fp : lfiles) : res bool := any_match_nonutf8 (lf_files fp).
+Definition ll_find_files_nonutf8 (v : variant) (d : doc) : res (option (nat * para)) :=
+  last_match ll_matches_nonutf8 (ll_iter_files v d) 0 None.
+Definition ly_find_files_nonutf8 (c : lcopyright) : res (option (nat * lfiles)) :=
+  last_match ly_matches_nonutf8 (c_files c) 0 None.
+(* find_license_for_file starts with find_files(filename)?: nothing can have matched *)
+Definition ll_find_license_for_file_nonutf8 (v : variant) (d : doc) : res (option license) :=
+  bind (ll_find_files_nonutf8 v d) (fun _ => Ok None).
+Definition ly_find_license_for_file_nonutf8 (c : lcopyright) : res (option license) :=
+  bind (ly_find_files_nonutf8 c) (fun _ => Ok None).
